@@ -38,6 +38,12 @@ pub fn grids(tier: Tier) -> Vec<Grid> {
       }
     }
   }
+  // three rows of up to two blocks (at most 4 blocks in all) and four rows of one block, block dimensions in {1,2}:
+  // the three- and four-argument vertical concatenations with rows that are more than one row high
+  let rows2 = rows_of(2, &[1, 2]);
+  for r1 in &rows2 { for r2 in &rows2 { for r3 in &rows2 { if r1.len() + r2.len() + r3.len() <= 4 { v.push(vec![r1.clone(), r2.clone(), r3.clone()]); } } } }
+  let one = rows_of(1, &[1, 2]);
+  for r1 in &one { for r2 in &one { for r3 in &one { for r4 in &one { v.push(vec![r1.clone(), r2.clone(), r3.clone(), r4.clone()]); } } } }
   if tier == Tier::Thorough {
     // three rows, dimensions up to 3, at most 6 blocks
     let rows3 = rows_of(2, &[1, 2, 3]);
@@ -164,7 +170,7 @@ impl Check for C11 {
   fn unit_budget(&self, _t: Tier) -> Duration { Duration::from_secs(120) }
   fn drive(&mut self, tier: Tier, cfg: &PoolCfg, rep: &mut Report) {
     let n = self.gs.len() as u64;
-    rep.rule = format!("{} grids of block shapes: every grid with <= 2 rows x <= 3 blocks with block dimensions in {{1,2}} (valid and invalid tilings alike), every single row and single column of 4..6 blocks (uniform height/width, the n-ary concatenation paths){}; x kinds (f64, u8, string{}) x block spellings (all variables; 1x1 blocks as scalars; one block written as a nested literal or as a formula); \
+    rep.rule = format!("{} grids of block shapes: every grid with <= 2 rows x <= 3 blocks, of 3 rows x <= 2 blocks (<= 4 blocks) and of 4 rows x 1 block with block dimensions in {{1,2}} (valid and invalid tilings alike), every single row and single column of 4..6 blocks (uniform height/width, the n-ary concatenation paths){}; x kinds (f64, u8, string{}) x block spellings (all variables; 1x1 blocks as scalars; one block written as a nested literal or as a formula); \
       block k holds 10(k+1)+position so that any misplacement shows; plus one block of another kind (must be rejected); evaluations = literals evaluated; non-trivial = all of them (block matrix fixed, or rejection required)", n,
       if tier == Tier::Thorough { ", every grid of 3 rows x <= 2 blocks with dimensions up to 3 (<= 5 blocks), every single row of 4 blocks over {1,3}^2" } else { "" }, if tier == Tier::Thorough { ", i64, bool, r64, c64" } else { "" });
     rep.assumptions = vec!["empty (_) entries and kinds for which block definitions are rejected are not judged".into()];
